@@ -296,8 +296,8 @@ class SymInt(SymBase):
 
     __int__ = __index__
 
-    def concretize(self):
-        return core.cur().enumerate_values(self.z)
+    def concretize(self, limit=300):
+        return core.cur().enumerate_values(self.z, limit)
 
     def __str__(self):
         core.cur().unsupported("str(SymInt) reached from unlifted code")
